@@ -43,6 +43,9 @@ type DB struct {
 // GuardSlots is the number of blocks a guard-mode instance can allocate.
 var GuardSlots = 200000
 
+// FastGuard selects the guard allocator variant without guard pages and without a system call per Malloc.
+var FastGuard = false
+
 // MemEvent, if set, receives every malloc/free of instances opened afterwards.
 var MemEvent func(kind string, id int64, size int)
 
@@ -75,7 +78,11 @@ func Open(c Cfg) *DB {
 	d := &DB{Cfg: c}
 	if c.MM {
 		if c.Guard {
-			g, err := NewGuard(GuardSlots, 1)
+			mk := NewGuard
+			if FastGuard {
+				mk = NewFastGuard
+			}
+			g, err := mk(GuardSlots, 1)
 			if err != nil {
 				panic("guard allocator: " + err.Error())
 			}
@@ -111,6 +118,18 @@ func (d *DB) attach(c Cfg) {
 
 // Refresh re-reads the store pointer (LoadFromDisk replaces it).
 func (d *DB) RefreshStore() { d.store = d.VerifStore() }
+
+// Freed reports whether p is the start of a block that the instance has already returned to its allocator
+// (always false with Go-managed memory).
+func (d *DB) Freed(p unsafe.Pointer) bool {
+	switch {
+	case d.G != nil:
+		return d.G.IsDead(p)
+	case d.A != nil:
+		return d.A.IsDead(p)
+	}
+	return false
+}
 
 func (d *DB) Shutdown() {
 	d.gate.releaseAll()
